@@ -69,7 +69,12 @@ def _shape_sets(tier):
             (M((SK("k"), ("int",)), (SK("j"), ("int",))), M((SK("k"), ("int",)))),
             (M((IK(1), ("string", 1)), (IK(2), ("string", 1))), M((IK(1), ("string", 1)), (IK(2), ("string", 1)))),
             (M((SK("k"), L(("int",), ("int",)))), M((SK("k"), L(("int",), ("int",))))),
-            (M(), M((SK("k"), ("bool",))))]
+            (M(), M((SK("k"), ("bool",)))),
+            # same size, different key sets, container values under the non-shared key (and a shared key with equal-able values)
+            (M((SK("k"), L(("int",), ("int",)))), M((SK("j"), L(("int",), ("int",))))),
+            (M((IK(1), L(("int",))), (IK(2), L(("int",)))), M((IK(1), L(("int",))), (IK(3), L(("int",))))),
+            (M((SK("k"), M((SK("n"), ("int",))))), M((SK("j"), M((SK("n"), ("int",)))))),
+            (M((SK("k"), ("int",)), (SK("j"), L(("string", 1)))), M((SK("k"), ("int",)), (SK("i"), ("null",))))]
     if tier == "thorough":
         maps += [(M((SK("k"), M((SK("n"), ("int",))))), M((SK("k"), M((SK("n"), ("int",)))))),
                  (M((IK(1), ("double",)), (IK(2), ("double",))), M((IK(2), ("double",)), (IK(1), ("double",))))]
